@@ -203,6 +203,7 @@ import BGV
 #print axioms BGV.C12_dijkstra_correct
 #print axioms BGV.C12_distance_is_minimum
 #print axioms BGV.C12_entry
+#print axioms BGV.C12_terminates
 
 -- C13
 #print axioms BGV.C13_tokenise
